@@ -400,7 +400,10 @@ def opSymShape (axes : String) : String :=
     | .error .valueError => "printerr ValueError"
     | .error .typeError => "printerr TypeError"
     | .error .unmodelled => "unmodelled"
-    | .ok s => "str=" ++ String.ofList s ++ " => " ++ opShape (String.ofList s)
+    | .ok s =>
+      -- (`TensorType[Shape[...]]` is the string constructor applied to the printed shape, for every class)
+      let r := opShape (String.ofList s)
+      "str=" ++ String.ofList s ++ " => " ++ r ++ (if r.startsWith "ok " then " same-as-string=1" else "")
 
 def opSym (tree scope : String) : String :=
   match parseSym (symTokens tree) with
